@@ -233,6 +233,7 @@ def main(pid, explorer, deps_gen=(), extra_vo=(), assumptions=(), not_modelled='
         'not_modelled': not_modelled,
         'notes': ctx.notes,
     }
-    vlib.write_evidence(pid, tier, seed, cov, time.time() - t0, len(new_viol),
+    if not os.environ.get('VERIF_SKIP_EVIDENCE'):      # set by the mutation-testing helpers only
+      vlib.write_evidence(pid, tier, seed, cov, time.time() - t0, len(new_viol),
                         list(assumptions) + ['the Gallina model is tied to the C++ by differential runs on the explored cases only'])
     sys.exit(exit_code)
